@@ -242,6 +242,17 @@ class CommandMixin(object):
         if not (t == "add" and not errored):
             # (an add in a zone may have been stored or ignored; nothing to attribute)
             self._messages_monotonic(sub.pre, sub.post, sub.ev)
+        elif cm.bound and cm.named is not None:
+            # keep the history monitor in step with what was stored
+            k = (cm.app, cm.named)
+            pm, qm = sub.pre.mb(*k), sub.post.mb(*k)
+            rec = self.mb_inc.get(k)
+            if pm is not None and qm is not None and rec is not None:
+                before = Counter(tuple(x[:4]) for x in pm.msgs)
+                after = Counter(tuple(x[:4]) for x in qm.msgs)
+                for x in (after - before).elements():
+                    rec["adds"].append(x)
+                self._touch(k, sub.ev.wall, True)
         if t == "open" and not errored and "mailbox" in sub.msg and cm.bound:
             k = (cm.app, sub.msg["mailbox"])
             cm.named = sub.msg["mailbox"]
@@ -784,6 +795,7 @@ class CommandMixin(object):
                 mbr = self.mb_inc.get((cm.app, pn.mailbox))
                 if mbr is not None and cm.side not in mbr["admitted"]:
                     mbr["admitted"].append(cm.side)
+                self._attempt((cm.app, pn.mailbox), (cm.app, name), cm.side)
                 self._touch((cm.app, pn.mailbox), now, True)
         if kind in ("claim", "open", "close") and any(f.get("type") == "error" for f in rest):
             # refused attempts still count as "something happened" for the must-delete rule
